@@ -39,8 +39,12 @@ func main() {
 		os.Exit(2)
 	}
 	opt := vc.CheckOpts{Prop: prop, Tier: *tier, VerifDir: *verif, Timeout: 20, Par: 16, Seed: seed}
+	// debugging aid for the second-attempt stage: GOVC_TIMEOUT overrides the per-query limit (seconds)
 	if *tier == "thorough" {
 		opt.Timeout = 90
+	}
+	if t, err := strconv.ParseFloat(os.Getenv("GOVC_TIMEOUT"), 64); err == nil && t > 0 {
+		opt.Timeout = t
 	}
 	if *only != "" {
 		opt.OnlyFuncs = []string{*only}
